@@ -136,7 +136,7 @@ def run(run):
                 'the layout reference, every value decoded back over raw and register transport; distinct = (items, orders); '
                 'non-trivial = sequence contains a multi-byte value')
     run.assumptions = ['layout reference vmon/spec/payload.py', 'struct float conversion of the standard library']
-    n = run.scale(30000, 480000)
+    n = run.scale(30000, 3000000)
     for i in range(n):
         items = [gen_item(r) for _ in range(r.randint(1, 24) if i % 3 else r.randint(1, 3))]
         for bo in ('big', 'little'):
